@@ -275,7 +275,11 @@ pub fn run_case(ctx: &mut Ctx, fam: &str, _k: u64, r: &mut Rng) {
                 nontrivial = true;
             }
         } else if c < 62 {
-            h.keep_clone(*r.pick(&live));
+            if r.chance(1, 3) {
+                h.flagged_clone(*r.pick(&live), r.chance(1, 3), r.chance(2, 3));
+            } else {
+                h.keep_clone(*r.pick(&live));
+            }
             kind = "keep-clone";
         } else if c < 69 {
             h.keep_view(*r.pick(&live));
